@@ -144,6 +144,10 @@ var verifC08Prefixes = []string{
 	"E'\\",
 	"(",
 	"A;",
+	// open commands: the free bytes are the delimiter / the batch count
+	"DELIMITER ",
+	"-- atlas:delimiter ",
+	"A\nGO ",
 }
 
 func verifC08Free(n int, opts int) {
